@@ -339,6 +339,14 @@ V("solution-no-offset", "break", ["C01", "C13"], SV,
 V("solved-level0", "break", ["C01"], SV,
   "np.equal(shr_domains_stack[stacks_top[0], :, MIN], shr_domains_stack[stacks_top[0], :, MAX])", "np.equal(shr_domains_stack[0, :, MIN], shr_domains_stack[0, :, MAX])",
   "solved test looks at level 0", "is_solved")
+V("reset-partial-requeue", "break", ["C01", "C03", "C08"], BS,
+  "    triggered_propagators.fill(True)\n", "    triggered_propagators.fill(False)\n    triggered_propagators[0] = True\n", "restart re-queues only one constraint", "reset")
+V("init-queue-full-neutral", "neutral", ["C01", "C08"], BS,
+  "self.triggered_propagators = np.ones(problem.propagator_nb, dtype=np.bool)", "self.triggered_propagators = np.full(problem.propagator_nb, True, dtype=np.bool)",
+  "initial queue built with np.full(True)")
+V("init-queue-zeros", "break", ["C01", "C08"], BS,
+  "self.triggered_propagators = np.ones(problem.propagator_nb, dtype=np.bool)", "self.triggered_propagators = np.zeros(problem.propagator_nb, dtype=np.bool)",
+  "a new solver starts with an empty queue", "__init__")
 V("reset-no-fill", "break", ["C03", "C01"], BS, "    triggered_propagators.fill(True)\n", "", "restart does not re-queue the constraints", "reset")
 V("decmax-neutral-temp", "neutral", ["C03", "C13", "C01"], SV,
   "    shr_domains_stack[stacks_top[0], dom_indices_arr[var_idx], MAX] = value - 1 - dom_offsets_arr[var_idx]",
@@ -426,6 +434,9 @@ V("init-indices-uncached", "break", ["C13"], PB,
 V("init-trigger-vector-or", "break", ["C01", "C08", "C13"], PB,
   "            for prop_var_idx, prop_var in enumerate(prop_vars):\n                self.triggers[self.dom_indices_arr[prop_var], propagator_idx] |= triggers[prop_var_idx]\n",
   "            self.triggers[self.dom_indices_arr[prop_vars], propagator_idx] |= triggers\n", "wake-up table filled by one fancy-indexed |= (repeated index keeps the last write)", "init")
+V("addvar-or-default", "break", ["C01", "C13"], PB,
+  "        if dom_index is None:\n            dom_index = insertion_idx\n        if dom_offset is None:\n            dom_offset = 0\n",
+  "        dom_index = dom_index or insertion_idx\n        dom_offset = dom_offset or 0\n", "dom_index=0 treated as 'not given'", "add_variable")
 V("init-neutral-or", "neutral", ["C01", "C08", "C13"], PB,
   "self.triggers[self.dom_indices_arr[prop_var], propagator_idx] |= triggers[prop_var_idx]",
   "self.triggers[self.dom_indices_arr[prop_var], propagator_idx] = self.triggers[self.dom_indices_arr[prop_var], propagator_idx] | triggers[prop_var_idx]", "|= written out")
